@@ -150,3 +150,118 @@ Proof.
       split; [cbn [dmax]; fold dmax; rewrite Ecc, Er'; cbn [dmax]; fold dmax; lia|split; assumption].
 Qed.
 Print Assumptions cutout_dur.
+
+Lemma dsum_nonneg l : wfs l -> 0 <= dsum l.
+Proof. induction l as [|a l IH]; simpl; [lia|]. intros [H1 H2]. pose proof (dur_nonneg a H1). specialize (IH H2). lia. Qed.
+
+Definition at_sim (t : Z) := fix go (l : list ev) : list slice := match l with [] => [] | c :: r =>
+                 match at_ c t with Some s => s :: go r | None => go r end end.
+
+Lemma at_outside e t : wf e -> (t < 0 \/ dur e <= t) -> at_ e t = None.
+Proof.
+  revert t. induction e as [d l|cs IH|cs IH] using ev_ind'; intros t Hwf Ht.
+  - simpl in *. destruct (0 <=? t) eqn:?, (t <? d) eqn:?; simpl; auto; lia.
+  - change (at_ (Seq cs) t) with (at_seq cs t). change (wf (Seq cs)) with (wfs cs) in Hwf.
+    change (dur (Seq cs)) with (dsum cs) in Ht.
+    revert t Ht. induction cs as [|c r IHr]; intros t Ht; [reflexivity|].
+    inversion IH; subst. destruct Hwf as [Hc Hr]. cbn [at_seq]. fold at_seq.
+    pose proof (dur_nonneg c Hc). pose proof (dsum_nonneg r Hr). cbn [dsum] in Ht; fold dsum in Ht.
+    destruct ((0 <=? t) && (t <? dur c)) eqn:E.
+    + apply H1; auto. lia.
+    + apply IHr; auto. lia.
+  - change (at_ (Sim cs) t) with (match at_sim t cs with [] => None | vs => Some (SN vs) end).
+    change (wf (Sim cs)) with (wfs cs) in Hwf. change (dur (Sim cs)) with (dmax cs) in Ht.
+    assert (at_sim t cs = []) as ->; [|reflexivity].
+    induction cs as [|c r IHr]; [reflexivity|]. inversion IH; subst. destruct Hwf as [Hc Hr].
+    cbn [at_sim]; fold (at_sim t). cbn [dmax] in Ht; fold dmax in Ht.
+    rewrite H1; auto; [|lia]. apply IHr; auto. lia.
+Qed.
+
+Theorem cutout_at : forall e s en e', wf e -> 0 <= s -> s <= en ->
+  cut_out e s en = Ok e' ->
+  forall x, at_ e' x = if (0 <=? x) && (x <? spec_dur e s en) then at_ e (s + x) else None.
+Proof.
+  induction e as [d l|cs IH|cs IH] using ev_ind'; intros s en e' Hwf Hs Hse H x.
+  - unfold spec_dur. simpl in *. destruct (0 <? s) eqn:?, (en <? d) eqn:?;
+    match type of H with (if ?c then _ else _) = _ => destruct c eqn:? end; inversion H; subst; simpl;
+    repeat match goal with |- context [if ?c then _ else _] => destruct c eqn:? end; auto; lia.
+  - change (cut_out (Seq cs) s en) with (r <- co_seq s en 0 cs ; Ok (Seq r)) in H.
+    destruct (co_seq s en 0 cs) as [r|k] eqn:E; simpl in H; [|discriminate]. inversion H; subst e'; clear H.
+    change (at_ (Seq r) x) with (at_seq r x). change (at_ (Seq cs) (s + x)) with (at_seq cs (s + x)).
+    change (wf (Seq cs)) with (wfs cs) in Hwf. unfold spec_dur. change (dur (Seq cs)) with (dsum cs).
+    assert (G : forall t0 r, 0 <= t0 -> co_seq s en t0 cs = Ok r -> forall x,
+                at_seq r x = if (0 <=? x) && (x <? Z.max 0 (Z.min en (t0 + dsum cs) - Z.max s t0))
+                             then at_seq cs (Z.max s t0 - t0 + x) else None).
+    { clear E r x. induction cs as [|c rest IHrest]; intros t0 r Ht0 E x.
+      - simpl in E. inversion E; subst. simpl. destruct (_ && _); reflexivity.
+      - inversion IH as [|? ? Hc Hrest]; subst. destruct Hwf as [Hwc Hwr].
+        specialize (IHrest Hrest Hwr).
+        pose proof (dur_nonneg c Hwc) as Hd. pose proof (dsum_nonneg rest Hwr) as Hdr.
+        cbn [co_seq] in E. fold (co_seq s en) in E. cbn [dsum at_seq]; fold dsum; fold at_seq.
+        set (d := dur c) in *.
+        destruct (t0 <? s) eqn:Ea; destruct (en <? t0 + d) eqn:Eb; cbv beta iota zeta in E;
+        match type of E with (if ?c then _ else _) = _ => destruct c eqn:Ec end.
+        all: try (destruct (cut_out c _ _) as [c'|] eqn:Ecc; simpl in E; [|discriminate];
+                  destruct (co_seq s en (t0 + d) rest) as [r'|] eqn:Er; simpl in E; [|discriminate];
+                  inversion E; subst r; clear E;
+                  match type of Ecc with cut_out _ ?A ?B = _ =>
+                    assert (Ha : 0 <= A) by lia; assert (Hb : A <= B) by lia;
+                    pose proof (Hc A B c' Hwc Ha Hb Ecc) as Hat;
+                    pose proof (cutout_dur c A B c' Hwc Ha Hb Ecc) as [Edc _] end;
+                  unfold spec_dur in Edc; fold d in Edc;
+                  unfold spec_dur in Hat; fold d in Hat;
+                  assert (Ht1 : 0 <= t0 + d) by lia; pose proof (IHrest (t0 + d) r' Ht1 Er) as Hr;
+                  cbn [at_seq]; fold at_seq; rewrite Edc;
+                  rewrite Hr; rewrite Hat;
+                  repeat match goal with |- context [if ?c then _ else _] => destruct c eqn:? end;
+                  try reflexivity; try lia;
+                  try (f_equal; lia);
+                  try (symmetry; apply at_outside; [assumption|fold d; lia])).
+        all: try match type of E with (if ?c then _ else _) = _ => destruct c eqn:Ez end.
+        all: try (destruct (co_seq s en (t0 + d) rest) as [r'|] eqn:Er; simpl in E; [|discriminate];
+                  inversion E; subst r; clear E; assert (Ht1 : 0 <= t0 + d) by lia; pose proof (IHrest (t0 + d) r' Ht1 Er) as Hr;
+                  cbn [at_seq]; fold at_seq; fold d; rewrite Hr;
+                  repeat match goal with |- context [if ?c then _ else _] => destruct c eqn:? end;
+                  try reflexivity; try lia; try (f_equal; lia)).
+        all: try (assert (Ht1 : 0 <= t0 + d) by lia; pose proof (IHrest (t0 + d) r Ht1 E) as Hr; rewrite Hr;
+                  repeat match goal with |- context [if ?c then _ else _] => destruct c eqn:? end;
+                  try reflexivity; try lia; try (f_equal; lia);
+                  try (symmetry; apply at_outside; [assumption|fold d; lia])).
+      }
+    specialize (G 0 r ltac:(lia) E x). rewrite G.
+    replace (Z.max s 0 - 0 + x) with (s + x) by lia. replace (Z.max s 0) with s by lia.
+    replace (0 + dsum cs) with (dsum cs) by lia. reflexivity.
+  - change (cut_out (Sim cs) s en) with (r <- co_sim s en cs ; Ok (Sim r)) in H.
+    destruct (co_sim s en cs) as [r|k] eqn:E; simpl in H; [|discriminate]. inversion H; subst e'; clear H.
+    change (at_ (Sim r) x) with (match at_sim x r with [] => None | vs => Some (SN vs) end).
+    change (at_ (Sim cs) (s + x)) with (match at_sim (s + x) cs with [] => None | vs => Some (SN vs) end).
+    change (wf (Sim cs)) with (wfs cs) in Hwf. unfold spec_dur. change (dur (Sim cs)) with (dmax cs).
+    assert (G : at_sim x r = if (0 <=? x) && (s + x <? en) then at_sim (s + x) cs else []).
+    { revert r E. induction cs as [|c rest IHrest]; intros r E.
+      - simpl in E. inversion E; subst. simpl. destruct (_ && _); reflexivity.
+      - inversion IH as [|? ? Hc Hrest]; subst. destruct Hwf as [Hwc Hwr].
+        cbn [co_sim] in E. fold (co_sim s en) in E.
+        destruct (cut_out c s en) as [c'|] eqn:Ecc; simpl in E; [|discriminate].
+        destruct (co_sim s en rest) as [r'|] eqn:Er; simpl in E; [|discriminate].
+        inversion E; subst r; clear E.
+        pose proof (Hc s en c' Hwc Hs Hse Ecc x) as Hat. unfold spec_dur in Hat.
+        specialize (IHrest Hrest Hwr r' eq_refl).
+        cbn [at_sim]. fold (at_sim x). fold (at_sim (s + x)). rewrite Hat, IHrest.
+        pose proof (dur_nonneg c Hwc) as Hd.
+        destruct ((0 <=? x) && (s + x <? en)) eqn:E1; destruct ((0 <=? x) && (x <? Z.max 0 (Z.min en (dur c) - s))) eqn:E2;
+          try reflexivity; try lia.
+        all: try (rewrite (at_outside c (s + x) Hwc); [reflexivity|lia]). }
+    rewrite G.
+    assert (Hmax : forall t, dmax cs <= t -> at_sim t cs = []).
+    { intros t Ht. clear G E. induction cs as [|c rest IHrest]; [reflexivity|].
+      inversion IH; subst. destruct Hwf as [Hwc Hwr]. cbn [dmax] in Ht; fold dmax in Ht.
+      cbn [at_sim]; fold (at_sim t). rewrite (at_outside c t Hwc); [|lia]. apply IHrest; auto. lia. }
+    assert (Hneg : forall t, t < 0 -> at_sim t cs = []).
+    { intros t Ht. clear G E Hmax. induction cs as [|c rest IHrest]; [reflexivity|].
+      inversion IH; subst. destruct Hwf as [Hwc Hwr].
+      cbn [at_sim]; fold (at_sim t). rewrite (at_outside c t Hwc); [|lia]. apply IHrest; auto. }
+    destruct ((0 <=? x) && (s + x <? en)) eqn:E1; destruct ((0 <=? x) && (x <? Z.max 0 (Z.min en (dmax cs) - s))) eqn:E2;
+      try reflexivity; try lia.
+    rewrite Hmax; [reflexivity|lia].
+Qed.
+Print Assumptions cutout_at.
